@@ -135,7 +135,7 @@ class Chip(object):
         self.sv_write("vcpu_base", m.vcpu_base)
         self.sv_write("sdram_sys", SDRAM_SYS)
         self.sv_write("sdram_base", SDRAM_BASE)
-        self.sv_write("rtr_copy", RTR_COPY)
+        self.sv_write("rtr_copy", self.rtr_copy_addr())
         self.sv_write("alloc_tag", ALLOC_TAG)
         self.sv_write("p2p_root", (m.root[0] << 8) | m.root[1])
         for p in range(18):
@@ -167,7 +167,12 @@ class Chip(object):
                 route, key, mask, app, core = e
                 data += struct.pack("<2H3I", i, (core << 8) | app, route, key,
                                     mask)
-        self.mem.write(RTR_COPY, bytes(data))
+        self.mem.write(self.rtr_copy_addr(), bytes(data))
+
+    def rtr_copy_addr(self):
+        """The copy of the router table is a boot-time heap allocation: its
+        address differs from chip to chip."""
+        return RTR_COPY + 0x8000 * ((3 * self.x + 5 * self.y) % 7)
 
     def largest_free_rtr(self):
         return max([l for s, l in self.rtr_free] + [0])
